@@ -11,6 +11,8 @@ OBLIGATIONS = []
 for n in (0, 1, 15, 16, 17, 33):
     t = "quick" if n in (0, 17) else "thorough"
     for sv in range(1, 17):
+        if n != 17 and sv not in (1, 3, 8, 16): continue          # all 16 segment sizes at n = 17; four representative sizes elsewhere
+        if n == 33 and sv == 1: continue                          # 33 x 5 block-cipher applications per case: no verdict in reach
         for clo in range(0, n + 1, 3):
             chi = min(clo + 2, n)
             tq = "quick" if (n == 17 and sv in (3, 8, 16)) else "thorough"
